@@ -24,6 +24,10 @@ ASSUMPTIONS = [
     'additionally claimed to vanish whenever the longitude rule alone holds',
     'integrals of synthesised fields are claimed for total wavenumbers l <= D only',
     'equiangular_with_poles needs >= 2 latitude nodes',
+    'nodal arrays handed to integrate / to_modal hold zeros in padded nodes, as to_nodal produces them (observation '
+    'reported to the coordinator: Fast layouts with padded longitudes repeat the latitude weights on the padded '
+    'longitudes, so integrate(ones(nodal_shape)) = 4 pi r^2 * padded_longitudes / longitude_nodes; to_modal ignores '
+    'padded nodes in both directions)',
     'float32 pass: rtol 3e-4 (measured rounding 1e-6), only on scalar-resolved grids',
 ]
 MANIFEST = {
@@ -496,31 +500,31 @@ def _float32_strategy(tier):
 SUBCHECKS = [
     Subcheck('gram_all_unit_vectors', run_gram, strategy=_gram_strategy,
              examples={'quick': 40, 'thorough': 320}, shards={'quick': 2, 'thorough': 8},
-             wall={'quick': 900.0, 'thorough': 1500.0}, weight=3,
+             wall={'quick': 300.0, 'thorough': 1500.0}, weight=3,
              rule='non-trivial = L >= 3 and at least one off-diagonal (same m, l != l\') Gram entry is claimed exact',
              doc='to_modal(to_nodal(e)) over all unit vectors == delta on resolved entries; exact zeros off the mask'),
     Subcheck('basis_vs_scipy', run_basis, strategy=_basis_strategy,
              examples={'quick': 36, 'thorough': 300}, shards={'quick': 2, 'thorough': 8},
-             wall={'quick': 900.0, 'thorough': 1500.0}, weight=3,
+             wall={'quick': 300.0, 'thorough': 1500.0}, weight=3,
              rule='non-trivial = L >= 3 and M >= 2 (both cos and sin rows exist)',
              doc='to_nodal(e_ml) == scipy Y_ml on independently computed nodes; longitude offset only relabels axes'),
     Subcheck('weights_and_integrals', run_integrate, strategy=_integrate_strategy,
              examples={'quick': 50, 'thorough': 500}, shards={'quick': 1, 'thorough': 6},
-             wall={'quick': 900.0, 'thorough': 1500.0}, weight=2,
+             wall={'quick': 300.0, 'thorough': 1500.0}, weight=2,
              rule='non-trivial = (radius != 1 or leading batch axes) and L >= 2',
              doc='weights positive/symmetric/sum 4 pi; integrate exact to degree D; integrate(to_nodal x) = r^2 sqrt(4 pi) x00'),
     Subcheck('truncation_isolation', run_truncation, strategy=_truncation_strategy,
              examples={'quick': 60, 'thorough': 600}, shards={'quick': 1, 'thorough': 6},
-             wall={'quick': 900.0, 'thorough': 1500.0}, weight=2,
+             wall={'quick': 300.0, 'thorough': 1500.0}, weight=2,
              rule='non-trivial = the layout has entries outside the truncation and L >= 2',
              doc='mask == documented layout; masked inputs never influence to_nodal; to_modal output exactly 0 there'),
     Subcheck('factory_basis_numpy', run_factory, cases=_factory_cases,
-             shards={'quick': 2, 'thorough': 12}, wall={'quick': 900.0, 'thorough': 1500.0}, weight=4,
+             shards={'quick': 2, 'thorough': 12}, wall={'quick': 300.0, 'thorough': 1500.0}, weight=4,
              rule='non-trivial = the Gram / scipy comparison of basis.f, basis.p, basis.w was evaluated (not only sizes)',
              doc='all 20 factories have the literature sizes; numpy Gram + scipy comparison of the cached basis'),
     Subcheck('float32_roundtrip', run_float32, strategy=_float32_strategy,
              examples={'quick': 10, 'thorough': 150}, shards={'quick': 1, 'thorough': 4},
-             wall={'quick': 900.0, 'thorough': 900.0}, weight=1,
+             wall={'quick': 300.0, 'thorough': 900.0}, weight=1,
              rule='non-trivial = L >= 3',
              doc='float32 inputs with x64 disabled: round trip and synthesis within 3e-4'),
 ]
